@@ -46,10 +46,10 @@ def Facts (sv : Solver) : List Int → Prop
   | [] => True
   | pk :: rest => FactsTop sv pk rest ∧ Facts sv rest
 
-/-- the cumulated slope is non-increasing in the position on `(-∞, L]` and non-negative at `L` -/
+/-- the cumulated slope is non-increasing in the position on `(0, L]` and non-negative at `L` -/
 structure MonoEv (ev : List Event) (L : Int) : Prop where
-  mono : ∀ x x', x ≤ x' → x' ≤ L → evS ev x' ≤ evS ev x
-  nn : 0 ≤ evS ev L
+  mono : ∀ x x', 0 < x → x ≤ x' → x' ≤ L → evS ev x' ≤ evS ev x
+  nn : 0 < L → 0 ≤ evS ev L
 
 /-- `o` minimises `c k ·` for every source `k ≥ i` on its left, and `c i ·` is monotone on both
 sides of `o` -/
@@ -72,7 +72,7 @@ structure LoopInv (sv : Solver) (i : Nat) (st : St) : Prop where
   iev : ∀ x, 0 < x → x ≤ st.lastPosition →
     evS st.events x = cs sv i (sigL sv (sv.S.getD i 0 + x)) - cs sv i st.lastOcc + lamU sv st.pRev x
   mono : MonoEv st.events st.lastPosition
-  decU : ∀ t, st.optSink ≤ t → t ≤ st.lastOcc → ∀ x, x ≤ st.lastPosition →
+  decU : ∀ t, st.optSink ≤ t → t ≤ st.lastOcc → ∀ x, 0 < x → x ≤ st.lastPosition →
     0 ≤ evS st.events x + cs sv i st.lastOcc - cs sv i t
   rinv : st.lastOcc + 1 < sv.v.length →
     sv.D.getD (st.lastOcc + 1) 0 ≤ sv.S.getD (i + 1) 0 + st.lastPosition →
@@ -103,5 +103,44 @@ structure SweepInv (sv : Solver) (st : St) : Prop where
   optL : ∀ k, st.pRev.length ≤ k + 1 → k < sv.u.length → ∀ t t', t ≤ t' → t' ≤ st.optSink →
     cs sv k t' ≤ cs sv k t
   facts : Facts sv st.pRev
+
+/-- the instance handed to the solver: sorted, zero-free, prefix sums, supply ≤ demand -/
+structure SwDom (sv : Solver) : Prop where
+  dom : sv.Dom
+  si : SortedInst sv
+  spos : ∀ w ∈ sv.s, 0 < w
+  dpos : ∀ w ∈ sv.d, 0 < w
+
+/-- the condition of the `while` loop of `push i` -/
+def Overflow (sv : Solver) (i : Nat) (st : St) : Prop :=
+  sv.D.getD (st.lastOcc + 1) 0 - sv.S.getD (i + 1) 0 < st.lastPosition
+
+/-- `pushToNewSink` was taken: the tentative position is unchanged, sink `J+1` becomes the last
+occupied one, and one event `(L, c i J - c i (J+1))` is added -/
+structure StepNS (sv : Solver) (i : Nat) (st st' : St) : Prop where
+  room : st.lastOcc + 1 < sv.v.length
+  dec : st.lastPosition = 0 ∨
+    cs sv i (st.lastOcc + 1) ≤ evS st.events st.lastPosition + cs sv i st.lastOcc
+  occ : st'.lastOcc = st.lastOcc + 1
+  pos : st'.lastPosition = st.lastPosition
+  pRev : st'.pRev = st.pRev
+  optS : st'.optSink = st.optSink
+  ev : ∀ y, 0 < y → evS st'.events y =
+    (if y ≤ st.lastPosition then cs sv i st.lastOcc - cs sv i (st.lastOcc + 1) else 0) + evS st.events y
+  ei : EvInv st'
+
+/-- `pushToLastSink` was taken: the run moves left to the next event (or to the position where
+source `i` ends with sink `J`), the events at `L` are merged and re-inserted there -/
+structure StepTL (sv : Solver) (i : Nat) (st st' : St) : Prop where
+  dec : st.lastOcc + 1 = sv.v.length ∨ (st.lastPosition ≠ 0 ∧
+    evS st.events st.lastPosition + cs sv i st.lastOcc < cs sv i (st.lastOcc + 1))
+  occ : st'.lastOcc = st.lastOcc
+  pRev : st'.pRev = st.pRev
+  optS : st'.optSink = st.optSink
+  lt : st'.lastPosition < st.lastPosition
+  ge : max (sv.D.getD (st.lastOcc + 1) 0 - sv.S.getD (i + 1) 0) 0 ≤ st'.lastPosition
+  ev : ∀ y, 0 < y → y ≤ st'.lastPosition → evS st'.events y = evS st.events y
+  flat : ∀ y, st'.lastPosition < y → y ≤ st.lastPosition → evS st.events y = evS st.events st.lastPosition
+  ei : EvInv st'
 
 end ColoVerif.Transp1d
